@@ -18,11 +18,11 @@ Proof.
   induction 1 as [|x l l' HP IH|x y l|l l' l'' HP1 IH1 HP2 IH2]; intros ND acc.
   - reflexivity.
   - cbn [map] in ND. apply NoDup_cons_iff in ND as [_ ND].
-    destruct x as [kx [vx|bx]]; cbn [last_varint]; apply IH; assumption.
+    destruct x as [kx []]; cbn [last_varint]; apply IH; assumption.
   - cbn [map] in ND. apply NoDup_cons_iff in ND as [Hn _].
     assert (Hk : fst y <> fst x).
     { intro E. apply Hn. left. symmetry. now apply slot_key_eq. }
-    destruct x as [kx [vx|bx]], y as [ky [vy|by_]]; cbn [last_varint fst] in *; try reflexivity.
+    destruct x as [kx []], y as [ky []]; cbn [last_varint fst] in *; try reflexivity.
     destruct (N.eqb_spec kx k), (N.eqb_spec ky k); try reflexivity. congruence.
   - rewrite IH1 by assumption. apply IH2.
     apply (Permutation_NoDup (Permutation_map slot HP1) ND).
@@ -34,10 +34,10 @@ Proof.
   induction 1 as [|x l l' HP IH|x y l|l l' l'' HP1 IH1 HP2 IH2]; intros ND acc.
   - reflexivity.
   - cbn [map] in ND. apply NoDup_cons_iff in ND as [_ ND].
-    destruct x as [kx [vx|bx]]; cbn [last_from]; apply IH; assumption.
+    destruct x as [kx []]; cbn [last_from]; apply IH; assumption.
   - cbn [map] in ND. apply NoDup_cons_iff in ND as [Hn _].
     assert (Hs : slot y <> slot x) by (intro E; apply Hn; left; now symmetry).
-    destruct x as [kx [vx|bx]], y as [ky [vy|by_]]; cbn [last_from] in *; try reflexivity.
+    destruct x as [kx []], y as [ky []]; cbn [last_from] in *; try reflexivity.
     unfold slot in Hs. cbn [fst] in Hs.
     destruct (N.eqb_spec kx 2), (N.eqb_spec kx 3), (N.eqb_spec ky 2), (N.eqb_spec ky 3);
       cbn [orb]; try reflexivity; subst; cbn in Hs; congruence.
